@@ -3,7 +3,8 @@ import LemoModel.Sync
 namespace Driver.C20
 open LemoModel LemoModel.Sync Driver
 
-/-- `none` = the goroutine that called Add/Push is blocked for ever on the cache's own mutex -/
+/-- The driver runs the model of the code as it is in /repo NOW (repaired Add / IsExit / flush):
+    `addLive`, `isExitFixed`, `ccPushLive`.  (`Option` is kept for the line protocol; it is always `some`.) -/
 structure St where
   bc : Option BlockCache := some {}
   cc : Option ConfirmCache := some []
@@ -35,7 +36,7 @@ def fillBC (limit : Nat) : Nat → Nat → Option BlockCache → Option BlockCac
   | n + 1, h, c =>
     match c with
     | none => none
-    | some c => fillBC limit n (h + 1) (addChecked limit (mkBlk h 0) c)
+    | some c => fillBC limit n (h + 1) (some (addLive limit (mkBlk h 0) c))
 
 /-- canonical text of the confirm cache: heights ascending, hashes ascending, sigs in arrival order -/
 def dumpCC (c : ConfirmCache) : String :=
@@ -55,7 +56,7 @@ def fillCC (limit : Nat) : Nat → Nat → Option ConfirmCache → Option Confir
   | n + 1, h, c =>
     match c with
     | none => none
-    | some c => fillCC limit n (h + 1) (ccPushChecked limit { hash := h, height := h, sig := 0 } c)
+    | some c => fillCC limit n (h + 1) (some (ccPushLive limit { hash := h, height := h, sig := 0 } c))
 
 /-- segment block `k` over a base block of height `base`: hash k, parent k-1 -/
 def segBlk (base k : Nat) : Blk := { height := base + k, hash := k, parent := k - 1 }
@@ -70,7 +71,7 @@ def step (s : St) (w : List String) : St × String :=
   | ["new"] => ({ s with bc := some {} }, "ok")
   | ["add", h, t] =>
     match h.toNat?, t.toNat?, s.bc with
-    | some h, some t, some c => let r := addChecked 10240 (mkBlk h t) c; ({ s with bc := r }, showBC r)
+    | some h, some t, some c => let r := some (addLive 10240 (mkBlk h t) c); ({ s with bc := r }, showBC r)
     | some _, some _, none => (s, "deadlock")
     | _, _, _ => (s, "bad-op")
   | ["rm", h, t] =>
@@ -93,7 +94,7 @@ def step (s : St) (w : List String) : St × String :=
     | _, _, _ => (s, "bad-op")
   | ["isexit", h, t, qh] =>
     match h.toNat?, t.toNat?, qh.toNat?, s.bc with
-    | some h, some t, some qh, some c => (s, toString (isExit (h * 1000 + t) qh c))
+    | some h, some t, some qh, some c => (s, toString (isExitFixed (h * 1000 + t) qh c))
     | some _, some _, some _, none => (s, "deadlock")
     | _, _, _, _ => (s, "bad-op")
   | ["fill", lo, n] =>
@@ -106,7 +107,7 @@ def step (s : St) (w : List String) : St × String :=
   | ["cpush", hash, h, sig] =>
     match hash.toNat?, h.toNat?, sig.toNat?, s.cc with
     | some hash, some h, some sig, some c =>
-      let r := ccPushChecked 10240 { hash := hash, height := h, sig := sig } c
+      let r := some (ccPushLive 10240 { hash := hash, height := h, sig := sig } c)
       ({ s with cc := r }, showCC r)
     | some _, some _, some _, none => (s, "deadlock")
     | _, _, _, _ => (s, "bad-op")
@@ -138,7 +139,7 @@ def step (s : St) (w : List String) : St × String :=
   | "blocks" :: base :: ks =>
     match base.toNat?, nats? ks with
     | some base, some ks =>
-      let n := rcvBlocks add s.q s.node (ks.map (segBlk base))
+      let n := rcvBlocks (addLive 10240) s.q s.node (ks.map (segBlk base))
       ({ s with node := n }, showNode s.q n)
     | _, _ => (s, "bad-op")
   | ["confirm", base, k, sig] =>
